@@ -153,7 +153,7 @@ def quantifier(ev: Ev, which: str, g: ast.GeneratorExp | ast.ListComp) -> Val:
 				sub = Ev(ev.eng, ev.fn, State(env, ev.st.pc), ev.oracle, 'spec', ev.old, None, ev.prev)
 				conds = [sub.truth(c) for c in gen.ifs]
 				b = sub.truth(g.elt)
-				ts.append(z3.Implies(z3.And(*conds), b) if which == 'all' else z3.And(*conds, b))
+				ts.append((z3.Implies(z3.And(*conds), b) if conds else b) if which == 'all' else (z3.And(*conds, b) if conds else b))
 			return Val(BOOL, (z3.And(*ts) if which == 'all' else z3.Or(*ts)) if ts else z3.BoolVal(which == 'all'))
 		q = z3.Const(fresh_name(f'q_{var}'), z3.IntSort())
 		env[var] = Val(INT, q)
@@ -495,12 +495,26 @@ def str_method(ev: Ev, s: Val, name: str, args: list[Val], n: ast.Call) -> Val:
 		f = ev.rec('rf_rfind', [STR, STR, INT, INT], INT, lambda h, p, a, b, me: z3.If(b - z3.Length(p) < a, -1,
 			z3.If(z3.SubString(h, b - z3.Length(p), z3.Length(p)) == p, b - z3.Length(p), me(h, p, a, b - 1))))
 		return Val(INT, f(x, needle.term, lo, hi))
-	if name == 'startswith':
+	if name in ('startswith', 'endswith'):
 		p = ev.coerce(args[0], STR)
-		return Val(BOOL, z3.PrefixOf(p.term, x))
-	if name == 'endswith':
-		p = ev.coerce(args[0], STR)
-		return Val(BOOL, z3.SuffixOf(p.term, x))
+		if isinstance(args[0].ty, TTuple) or isinstance(args[0].ty, TList):
+			raise EngineError(f'str.{name} with a tuple of prefixes')
+		sub = x
+		if len(args) >= 2:
+			# s.startswith(p, start[, end]) looks at the slice s[start:end] (indices clipped like a slice)
+			i = ev.norm_index(args[1], ln)
+			lo = z3.If(i < 0, 0, z3.If(i > ln, ln, i))
+			hi = ln
+			if len(args) >= 3:
+				j = ev.norm_index(args[2], ln)
+				hi = z3.If(j < 0, 0, z3.If(j > ln, ln, j))
+			sub = z3.SubString(x, lo, z3.If(hi > lo, hi - lo, 0))
+			if len(args) >= 2:
+				# Python: a start beyond the end never matches, not even the empty prefix
+				beyond = i > ln
+				r = z3.PrefixOf(p.term, sub) if name == 'startswith' else z3.SuffixOf(p.term, sub)
+				return Val(BOOL, z3.And(z3.Not(beyond), r))
+		return Val(BOOL, z3.PrefixOf(p.term, sub) if name == 'startswith' else z3.SuffixOf(p.term, sub))
 	if name == 'count' and len(args) == 3:
 		needle = ev.coerce(args[0], STR)
 		i = ev.norm_index(args[1], ln)
@@ -664,6 +678,10 @@ def dict_method(ev: Ev, d: Val, name: str, args: list[Val], n: ast.Call, recv_no
 			ev.exit_if(z3.Not(present), 'KeyError')
 		write_back(ev, recv_node, Val(t, t.mk(z3.Store(t.dom(d.term), k.term, z3.BoolVal(False)), t.vals(d.term), t.size(d.term) - z3.If(present, 1, 0))))
 		if len(args) > 1:
+			if isinstance(args[1].ty, TNone) and not isinstance(t.val, (TOpt, TNone)):
+				# d.pop(k, None): the result is the stored value or None
+				ot = TOpt(t.val)
+				return Val(ot, z3.If(present, ot.some(z3.Select(t.vals(d.term), k.term)), ot.none()))
 			dflt = ev.coerce(args[1], t.val)
 			return Val(t.val, z3.If(present, z3.Select(t.vals(d.term), k.term), dflt.term))
 		return Val(t.val, z3.Select(t.vals(d.term), k.term))
@@ -943,7 +961,12 @@ def modular_call(ev: Ev, fs: source.FuncSrc, c: Contract, args: list[Val], kwarg
 	for k, v in c.consts.items():
 		env[k] = py_to_val(v)
 	for g, t in c.ghost_params.items():
-		env[g] = ev.eng.fresh(ev.eng.tenv.parse(t), f'ghost_{g}')  # type: ignore[arg-type]
+		ga = ev.fn.contract.ghost_args.get(f'{fs.qualname}.{g}') if ev.fn.contract is not None else None
+		if ga is not None:
+			# the caller's contract names the ghost argument it passes
+			env[g] = ev.coerce(Ev(ev.eng, ev.fn, ev.st, ev.oracle, 'spec', getattr(ev.fn, 'entry', None), list(ev.guards)).eval(ast.parse(ga, mode='eval').body), ev.eng.tenv.parse(t))
+		else:
+			env[g] = ev.eng.fresh(ev.eng.tenv.parse(t), f'ghost_{g}')  # type: ignore[arg-type]
 	pre = State(dict(env), ev.st.pc)
 	sub = Ev(ev.eng, callee, pre, ev.oracle, 'spec')
 	for k, expr in c.lets.items():
